@@ -1077,6 +1077,33 @@ Proof.
   apply IH; [exact Ho2|apply step_tags; assumption|apply step_Inv_partial; assumption].
 Qed.
 
+(* histories with arbitrary heap tags: every adoption step is made by a heap that is tag_safe at that moment *)
+Fixpoint adopters_safe (st : state) (ops : list op) : Prop :=
+  match ops with
+  | [] => True
+  | o :: t =>
+    (forall hid h, op_adopter o = Some hid -> find_heap st hid = Some h -> tag_safe (st_heaps st) h) /\
+    adopters_safe (step st o) t
+  end.
+
+Theorem run_Inv_adopter : forall ops st, adopters_safe st ops -> Inv st -> Inv (run st ops).
+Proof.
+  induction ops as [|o t IH]; intros st Hs HI; [exact HI|].
+  destruct Hs as [H1 H2]. unfold run. cbn [fold_left]. apply IH; [exact H2|apply step_Inv_adopter; assumption].
+Qed.
+
+Theorem reachable_Inv_adopter : forall ops, adopters_safe init_state ops ->
+  arenas_wf (st_arenas (run init_state ops)) /\ bound_Inv (run init_state ops) /\ placed_Inv (run init_state ops).
+Proof. intros ops Hs. apply Inv_split. apply run_Inv_adopter; [exact Hs|apply Inv_init]. Qed.
+
+Lemma untagged_adopters_safe : forall ops st, forallb op_untagged ops = true -> tags_uniform st -> adopters_safe st ops.
+Proof.
+  induction ops as [|o t IH]; intros st Ho Ht; [exact I|].
+  cbn in Ho. apply andb_prop in Ho as [Ho1 Ho2]. split.
+  - intros hid h _ Hh. apply (tags_uniform_heaps_tag_safe st Ht). eapply find_heap_In; eauto.
+  - apply IH; [exact Ho2|apply step_tags; assumption].
+Qed.
+
 (* for all histories of operations from the empty state (heaps created with tag 0) *)
 Theorem reachable_Inv_partial : forall ops,
   forallb op_untagged ops = true ->
@@ -1147,6 +1174,10 @@ Qed.
 
 (* ... in every history (through span reuse, reclaim-on-free, try_reclaim, reclaim_all, collect,
    thread exit, heap delete), heaps created with tag 0 *)
+Theorem exclusive_stays_private_history_adopter : forall ops A,
+  adopters_safe init_state ops -> exclusive_leak_b (run init_state ops) A = false.
+Proof. intros ops A Hs. apply exclusive_no_leak. apply (reachable_Inv_adopter ops Hs). Qed.
+
 Theorem exclusive_stays_private_history : forall ops A,
   forallb op_untagged ops = true -> exclusive_leak_b (run init_state ops) A = false.
 Proof. intros ops A Ho. apply exclusive_no_leak. apply (reachable_Inv_partial ops Ho). Qed.
@@ -1348,6 +1379,28 @@ Theorem reclaim_tag_unsuitable_refuted_lemma :
     bound_inv_b (step (run init_state ops) o) = false /\
     exclusive_leak_b (step (run init_state ops) o) 1%Z = true.
 Proof. exists ex_tag_ops, ex_tag_step. vm_compute. repeat split; reflexivity. Qed.
+
+(* non-vacuity of the adopter-based theorems: a history WITH a tagged heap.  Heap 6 = mi_heap_new_ex(7, false, none) of
+   the main thread adopts segment 5 (shared arena 2, one live tag-0 page): heap 6 is tag_safe (the tag-0 heap that
+   _mi_heap_by_tag finds is the unbound backing heap), the page moves to heap 1 and the invariants hold. *)
+Definition ex_safe_ops : list op := ex_setup ++ [OHeapNew 1 0%Z 7].
+Definition ex_safe_step : op := OTryReclaim 6 [(5, true)].
+Example ex_tagged_adopter_safe :
+  let st := run init_state ex_safe_ops in
+  let h6 := mkHeap 6 1 0%Z 7 false in
+  find_heap st 6 = Some h6 /\ tag_safe_b (st_heaps st) h6 = true /\ tags_uniform_b st = false /\
+  map s_owner (st_segs (step st ex_safe_step)) = [1; 0] /\
+  map (fun s => map (fun p => match p_heap p with Some h => h_id h | None => 0 end) (s_pages s)) (st_segs (step st ex_safe_step)) = [[1]; [0]] /\
+  bound_inv_b (step st ex_safe_step) = true /\ exclusive_leak_b (step st ex_safe_step) 1%Z = false.
+Proof. vm_compute. repeat split; reflexivity. Qed.
+
+Lemma ex_safe_adopters : adopters_safe init_state (ex_safe_ops ++ [ex_safe_step]).
+Proof.
+  unfold ex_safe_ops, ex_setup. cbn [app adopters_safe op_adopter].
+  repeat (split; [intros hid h E; discriminate E|]).
+  split; [|exact I]. intros hid h E Hh. inversion E; subst hid. apply tag_safe_b_sound.
+  vm_compute in Hh. inversion Hh; subst h. vm_compute. reflexivity.
+Qed.
 
 (* the full (unconditional) preservation statement, and its refutation by that witness *)
 Definition bound_inv_preserved_full : Prop := forall st o, Inv st -> Inv (step st o).
